@@ -51,6 +51,12 @@ CHECKS["C17"] = dict(
     note="Coq kernel+VM; tr_smart.py; ring hypotheses (satisfiable: SmartQc.v); optimiser by per-kernel exact execution only",
     design="DESIGN.md 3 C17")
 
+CHECKS["C13"] = dict(
+    technique="Coq proof of injectivity of the signature pre-image encoding (separator-joined fields, fixed-length digests) and of name distinctness under an injective digest; shape check of naming.py by translator; subprocess runs across hash seeds / object counters / prior compilations; request pairs that must be kept apart",
+    text="The text hashed into module and object names determines every component (forms, version, ufcx.h hash, kind, options+flags tag) - proved for all inputs of the encoding; SHA-1 and UFL signatures are assumed injective/renumbering-invariant. Stability and separation are exercised in fresh processes (seeds, histories, near-equal and large point arrays, flags, options).",
+    note="Coq kernel; SHA-1; UFL signatures; Python str() of tuples/options; tr_naming.py",
+    design="DESIGN.md 3 C13")
+
 ALL = [f"C{i:02d}" for i in range(1, 21)]
 
 NOT_YET = "check not built yet in this session (work in progress; see DESIGN.md section 6 for the order of construction)"
